@@ -22,6 +22,9 @@ TRUSTED = ['modelled, not verified: the translator translate/errflow (Rust, syn 
            'name (set recomputed from the signatures on every run) and of the disposition of the call\'s Result; dynamic dispatch is '
            'over-approximated in the Coq semantics (a call may resolve to ANY anchored function of that name, to the underlying target, '
            'or to a compliant foreign callee)',
+           'completeness of the call-site recognition is self-checked per function by an independent token census (`name(` tokens with a '
+           'propagating name = translated call sites, else Other); a callee NOT defined in the scanned tree (closure parameter, foreign trait '
+           'method) is recognised only in result / `?` position, a discarded Result of such a callee is visible to the dynamic sweep only',
            'code inside macro_rules! bodies is not parsed; the translator fails closed if such a body contains `.name(` with a propagating name']
 PARTIAL = []
 
